@@ -149,9 +149,10 @@ PROPS['C15'] = {
 PROPS['C16'] = {
     'e2': True,
     'explanation': 'fragment: for every sorted newline list (<= 4), text length and position inside the text, get_err_pos (as the driver composes it) returns the number, '
-                   'start and end of the line containing the position',
+                   'start and end of the line containing the position'
+                   + '; ' + RUN_NOTE + ': for programs of 1 and 2 instructions, every start index, both values of the interpreted switch and every answer of get_err_pos, the stepping prompt before the FIRST instruction asks get_err_pos for exactly the position recorded for that instruction and shows the line number and text it answers; execution begins at the index of start with DS = 0',
     'bounds': '<= 4 newlines, text length < 4096, unwind 6',
-    'outside': 'the message texts, the `*pos + 5` of the stepping prompt and everything else inside CMDDriver::run; which source position each emitted instruction is mapped to (SourceMapper) is checked natively by the grammar engine, not here',
+    'outside': 'messages after the first executed instruction (a symbolic interpreter result makes the run-loop query intractable, DESIGN.md section 6); the message wording; which source position each emitted instruction is mapped to (SourceMapper) is checked natively by the grammar engine, not here',
     'backends': [(r'mapper', [('z3', 'cvc5'), 'sat']), (r'.*', ['sat', 'z3'])],
     'assumptions': ['as C15'],
     'level_text': 'bounded model checking of the position -> (line, start, end) function against the definition of "the line containing p"',
